@@ -283,8 +283,11 @@ class Flow:
         key = id(d) if d.node >= 0 else (d.name, d.kind, id(d.stmt))
         if d.kind == "free" and self.outer is not None:
             od = [x for x in self.outer.defs if x.name == d.name]
-            if len(od) == 1 and od[0].kind == "assign" and depth > 0:
-                return self.outer._def_term(od[0], depth - 1, frozenset())
+            if od and all(x.kind == "assign" and x.path == () for x in od) and depth > 0:
+                terms = [self.outer._def_term(x, depth - 1, frozenset()) for x in od]
+                if len(terms) == 1:
+                    return terms[0]
+                return ast.Call(func=ast.Name(id="__phi__", ctx=ast.Load()), args=terms, keywords=[])
             return ast.Name(id=d.name, ctx=ast.Load())
         if d.kind in ("param", "global", "free", "import", "def", "class", "lambda", "nested", "except"):
             return ast.Name(id=d.name, ctx=ast.Load())
